@@ -108,14 +108,18 @@ func encodeText(cs *charset, text []rune) []byte {
 }
 
 // runC11 decodes one text through the pipeline and compares rune for rune.
-func runC11(cfg hx.Config, ch *simrt.Chooser, cs *charset, text []rune, paste bool, focus int, cuts []int) (*hx.Failure, error) {
+// delivery: 0 = each read processed with the clock held; n > 0 = n ms of
+// simulated time (less than the escape timeout) pass between reads; -1 / -n
+// = all reads back to back while the application is not polling (n ms pass
+// before it polls again).
+func runC11(cfg hx.Config, ch *simrt.Chooser, cs *charset, text []rune, paste bool, focus int, cuts []int, delivery int) (*hx.Failure, error) {
 	cfg.Locale = "en_US." + cs.Name
 	w, err := newIW(cfg, ch)
 	if err != nil {
 		return nil, err
 	}
 	cp := capsOf(w.Ti)
-	w.S.Note(hx.Fingerprint(cfg, cs.Name, text, paste, focus, cuts))
+	w.S.Note(hx.Fingerprint(cfg, cs.Name, text, paste, focus, cuts, delivery))
 	var in []byte
 	var want []string
 	if focus == 1 {
@@ -144,14 +148,26 @@ func runC11(cfg hx.Config, ch *simrt.Chooser, cs *charset, text []rune, paste bo
 		isCut[c%len(in)] = true
 	}
 	start := 0
+	var chunks [][]byte
 	for i := 1; i <= len(in); i++ {
 		if i == len(in) || isCut[i] {
-			w.feedHold(in[start:i])
+			if delivery < 0 {
+				chunks = append(chunks, in[start:i])
+			} else {
+				w.feedHold(in[start:i])
+				if delivery > 0 && i < len(in) {
+					w.S.Advance(hx.Ms(delivery))
+					w.Tty.Faults.Inc("slow_reads")
+				}
+			}
 			start = i
 			if i < len(in) {
 				w.Tty.Faults.Inc("read_split")
 			}
 		}
+	}
+	if delivery < 0 {
+		w.feedBurst(chunks, -delivery-1)
 	}
 	held := append([]string(nil), w.evs...)
 	w.settle()
@@ -171,7 +187,7 @@ func runC11(cfg hx.Config, ch *simrt.Chooser, cs *charset, text []rune, paste bo
 			tag = "C11/focus"
 		}
 		mk(tag, "delivered %s, expected %s", showEvents(got), showEvents(want))
-	} else if len(held) != len(got) && focus != 2 {
+	} else if len(held) != len(got) && focus != 2 && delivery == 0 {
 		// complete characters need no timeout to be delivered
 		mk("C11/text", "only %d of %d events were delivered before any time passed", len(held), len(got))
 	}
@@ -242,7 +258,7 @@ func TestC11(t *testing.T) {
 					}
 				}
 				hx.Arm("C11 enum")
-				f, err := runC11(hx.Config{Term: "xterm-256color", W: 80, H: 24, GapScale: 1, AltScreen: true}, &simrt.Chooser{}, cs, text, idx%5 == 0, 0, cuts)
+				f, err := runC11(hx.Config{Term: "xterm-256color", W: 80, H: 24, GapScale: 1, AltScreen: true}, &simrt.Chooser{}, cs, text, idx%5 == 0, 0, cuts, 0)
 				hx.Disarm()
 				if err != nil {
 					t.Fatalf("HARNESS: %v", err)
@@ -271,7 +287,12 @@ func TestC11(t *testing.T) {
 				}
 			}
 		}
-		n := rapid.IntRange(1, 12).Draw(rt, "len")
+		delivery := rapid.SampledFrom([]int{0, 0, 0, 10, 20, 40, -1, -1, -101}).Draw(rt, "delivery")
+		maxLen := 12
+		if delivery < 0 {
+			maxLen = 30 // more than the event queue holds
+		}
+		n := rapid.IntRange(1, maxLen).Draw(rt, "len")
 		var text []rune
 		for i := 0; i < n; i++ {
 			text = append(text, cs.Members[rapid.IntRange(0, len(cs.Members)-1).Draw(rt, "r")])
@@ -295,12 +316,12 @@ func TestC11(t *testing.T) {
 		ch := hx.DrawChooser(rt, 40)
 		hx.Arm("C11")
 		defer hx.Disarm()
-		f, err := runC11(cfg, ch, cs, text, paste, focus, cuts)
+		f, err := runC11(cfg, ch, cs, text, paste, focus, cuts, delivery)
 		if err != nil {
 			rt.Fatalf("HARNESS: %v", err)
 		}
 		if f != nil {
-			hx.WriteTrace("C11", f, map[string]interface{}{"config": cfg.String(), "charset": cs.Name, "text": string(text), "cuts": cuts}, nil, nil, 0)
+			hx.WriteTrace("C11", f, map[string]interface{}{"config": cfg.String(), "charset": cs.Name, "text": string(text), "cuts": cuts, "delivery": delivery}, nil, nil, 0)
 			rt.Fatalf("VIOLATION %s: %s", f.Tag, f.Msg)
 		}
 	})
